@@ -6,6 +6,7 @@ package main
 
 import (
 	"encoding/binary"
+	"math"
 
 	"github.com/pion/rtcp"
 )
@@ -42,7 +43,7 @@ func genVariantsAs(e *emitter, r *rng, n int, as string) {
 		}
 	}
 	for i := 0; i < n; i++ {
-		switch r.intn(8) {
+		switch r.intn(10) {
 		case 0: // FIR with non-zero reserved bits
 			p := genFIR(r, false)
 			body := append(be32(p.SenderSSRC), be32(p.MediaSSRC)...)
@@ -160,6 +161,28 @@ func genVariantsAs(e *emitter, r *rng, n int, as string) {
 			}
 			body = append(body, p.ProfileExtensions...)
 			out("rr", "ReceiverReport", append(hdrBytes(false, len(p.Reports), 201, 4+len(body)), body...), p)
+		case 8: // REMB written out by hand: every SSRC count up to the 8-bit limit, any exponent, a non-zero mantissa
+			n := r.pick(0, 1, 2, 3, 250, 251, 252, 253, 254, 255, r.intn(256))
+			exp, mant := r.intn(64), 1+r.intn(1<<18-1)
+			p := &rtcp.ReceiverEstimatedMaximumBitrate{SenderSSRC: r.u32(), Bitrate: float32(math.Ldexp(float64(mant), exp))}
+			body := append(be32(p.SenderSSRC), 0, 0, 0, 0, 'R', 'E', 'M', 'B', byte(n), byte(exp<<2|mant>>16), byte(mant>>8), byte(mant))
+			for i := 0; i < n; i++ {
+				v := r.u32()
+				p.SSRCs = append(p.SSRCs, v)
+				body = append(body, be32(v)...)
+			}
+			out("remb", "ReceiverEstimatedMaximumBitrate", append(hdrBytes(false, 15, 206, 4+len(body)), body...), p)
+		case 9: // NACK written out by hand, from one pair to several hundred
+			n := r.pick(1, 2, 3, 17, 64, 253, 254, 300, 1+r.intn(400))
+			p := &rtcp.TransportLayerNack{SenderSSRC: r.u32(), MediaSSRC: r.u32()}
+			body := append(be32(p.SenderSSRC), be32(p.MediaSSRC)...)
+			for i := 0; i < n; i++ {
+				np := rtcp.NackPair{PacketID: r.u16(), LostPackets: rtcp.PacketBitmap(r.u16())}
+				p.Nacks = append(p.Nacks, np)
+				body = append(body, be16(np.PacketID)...)
+				body = append(body, be16(uint16(np.LostPackets))...)
+			}
+			out("nack", "TransportLayerNack", append(hdrBytes(false, 1, 205, 4+len(body)), body...), p)
 		default: // TWCC: a different chunking of the same statuses is produced by genTWCC itself
 			t := genTWCC(r, false)
 			if b := twccBytes(t); b != nil {
